@@ -120,6 +120,8 @@ def cargo_build(packages):
 
 
 def harness_bin(name):
+    if name.startswith("/"):
+        return name
     return os.path.join(HARNESS, "target", "release", name)
 
 
